@@ -28,3 +28,7 @@ def run(rep: Report, repo: Repo, tier: str) -> None:
         writer_rules.rule_values_verbatim(rep, repo, "C10-R4")
     with rep.isolated():
         protocol.rule_accepted_arities(rep, repo, "C10-R6", kinds=["set", "option"])
+    # SET() / OPTION() are the same commands as set() / option(): the documented dispatch folds the case of the command name
+    from . import misc_rules
+    with rep.isolated():
+        misc_rules.rule_case_folding(rep, repo, "C10-R7")
